@@ -91,6 +91,11 @@ def _parse(src, path):
             walrus.lower_augadd(tree)       # `seq += more` on a local list / bytearray is seq.extend(more)
         except Exception:
             pass
+    if ".items()" in src:
+        try:
+            walrus.unroll_local_tables(tree)    # a local display walked once with .items(): written out row by row
+        except Exception:
+            tree = ast.parse(src, filename=path)
     return tree
 
 
